@@ -453,7 +453,10 @@ impl Encoder {
             ast::FieldDesc::Count { field_id, width, .. } => {
                 let field_name = field_id.to_ident();
                 let field_type = types::Integer::new(*width);
-                if field_type.width > *width {
+                // The element count is a usize: it can exceed the count field
+                // for every field width below 64 bits, including the widths
+                // that fill their integer type (8, 16, 32).
+                if *width < 64 {
                     let packet_name = &self.packet_name;
                     let max_value = mask_bits(*width, "usize");
                     self.tokens.extend(quote! {
